@@ -68,3 +68,6 @@ Proof.
   - lia.
   - change csi_nextBinShift with 3. rewrite (u32_small (dp * 3)) by lia. rewrite u32_small by lia. lia.
 Qed.
+
+Lemma csi_geo_ok ms dp : 0 <= ms -> 0 <= dp <= 10 -> ms + 3 * dp <= 62 -> u32 (ms + u32 (dp * csi_nextBinShift)) < 63.
+Proof. intros. change csi_nextBinShift with 3. rewrite (u32_small (dp * 3)) by lia. rewrite u32_small by lia. lia. Qed.
